@@ -134,6 +134,13 @@ theorem single_fork_committer (c : Cl) (o : Ev) (S : List Ev) (l : List Ev) (nx 
       ∀ e ∈ l, e ≠ w → e ≠ o → ∃ r, getRec (l.foldl (fun c e => (deliver c e nx).1) c) e.n = some r ∧ (r.state = 3 ∨ r.state = 4) :=
   C01Fork.single_fork_committer c o S l nx hg hr hsec hm ho hS hd hl hne
 
+/-- DESIGN's `secrets_follow_path` (and "no snapshot of the current epoch"): invariants of every history -/
+theorem secrets_follow_path (id : Nat) (p : Bool) (r : Nat) (ms as : List Nat) (name : Nat) (ops : List C08.COp) :
+    C01Fork.SecretsOK (ops.foldl C08.cstep (initCl id p r ms as name)).g ∧
+    C01Fork.NoForkSnapshot (ops.foldl C08.cstep (initCl id p r ms as name)) ∧
+    ∀ s ∈ (ops.foldl C08.cstep (initCl id p r ms as name)).mgr, C01Fork.SecretsOK s.saved :=
+  C01Fork.secrets_follow_path id p r ms as name ops
+
 /-- the excluded configuration of the bystander theorem: retention 0 -/
 theorem single_fork_needs_retention : ¬ C01Fork.single_fork_bystander_full := C01Fork.single_fork_bystander_full_false
 
